@@ -153,22 +153,36 @@ def set_config(config_path: PathStr, arg_list: typing.Sequence[str]) -> None:
     settings.write_to_json_file(config_path, config)
 
 
+def to_number(token: str) -> typing.Union[int, float]:
+    value = float(token)
+    try:
+        return int(value) if int(value) == value else value
+    except (OverflowError, ValueError):
+        return value  # inf, nan
+
+
+def is_option(token: str) -> bool:
+    # Negative numbers are values, not options.
+    return token.startswith("-") and not is_number(token)
+
+
 def generate(arg_list: typing.Sequence[str]) -> typing.Dict[str, typing.Any]:
     data: typing.Dict[str, typing.Any] = {}
     max_idx = len(arg_list) - 1
     for i, arg in enumerate(arg_list):
-        if arg.startswith("-"):
+        if is_option(arg):
             arg = arg[1:] if not arg.startswith("--") else arg[2:]
             if (i + 1 <= max_idx
-                    and arg_list[i + 1].startswith("-")) or i + 1 > max_idx:
+                    and is_option(arg_list[i + 1])) or i + 1 > max_idx:
                 data[arg] = True  # just a boolean flag
             else:
                 values: typing.List[typing.Any] = []
                 for j in range(i + 1, max_idx + 1):
                     value = arg_list[j]
-                    if value.startswith("-"):
+                    if is_option(value):
                         break
-                    values.append(float(value) if is_number(value) else value)
+                    values.append(
+                        to_number(value) if is_number(value) else value)
                 if len(values) == 1:
                     values = values[0]
                 data[arg] = values
